@@ -115,7 +115,7 @@ func ShapeHash(xs []*S, salt string) string {
 
 func containsYield(xs []*S) bool {
 	for _, s := range xs {
-		if s.K == "yield" || s.K == "yfrom" || s.Init == "yield" || s.Post == "yield" || (s.K == "raw" && strings.Contains(s.Code, "YIELD(")) {
+		if s.K == "yield" || s.K == "yfrom" || s.Init == "yield" || s.Init == "yfrom" || s.Post == "yield" || (s.K == "raw" && strings.Contains(s.Code, "YIELD(")) {
 			return true
 		}
 		if containsYield(s.A) || containsYield(s.B) {
@@ -276,6 +276,26 @@ func yieldExpr(s *S) string {
 		return "a"
 	case "call1": // a call with exactly ONE literal argument
 		return fmt.Sprintf("tr.W(%d)", s.ID)
+	case "boom1": // a call with exactly one literal argument that panics when the tape says so
+		return fmt.Sprintf("tr.Boom(%d)", s.ID)
+	case "neg": // unary operators on a variable
+		return "-a"
+	case "pos":
+		return "+a"
+	case "paren":
+		return "(a)"
+	case "conv": // a conversion of a variable
+		return "int(int64(a))"
+	case "deref":
+		return "*(&a)"
+	case "index":
+		return "[]int{a, b}[0]"
+	case "iife":
+		return "func() int { return a }()"
+	case "negcall": // unary operator applied to an effectful call
+		return fmt.Sprintf("-tr.W(%d)", s.ID)
+	case "convcall": // a conversion-looking call around an effectful call with one literal argument
+		return fmt.Sprintf("int(tr.W(%d))", s.ID)
 	case "glob": // a package-level variable declared in ANOTHER file of the package (reg.go)
 		return "SharedG"
 	case "expr":
@@ -319,6 +339,9 @@ func (r *rctx) stmt(s *S) {
 			r.line("a, b = b, a+b")
 		case "globmut":
 			r.line("SharedG += %d", 3+s.ID%5)
+		case "closure":
+			r.line("f%d := func(x int) int { a += x; return a }", s.ID)
+			r.line("tr.V(%d, f%d(1))", s.ID, s.ID)
 		case "set":
 			r.line("a = tr.V(%d, a+1)", s.ID)
 		default:
@@ -420,6 +443,8 @@ func (r *rctx) switchStmt(s *S) {
 		init = fmt.Sprintf("w%d := %d; ", s.ID, s.ID)
 	case "yield":
 		init = yieldStmt(s.ID*10+2, "call") + "; "
+	case "yfrom":
+		init = fmt.Sprintf("YFROM(§two(%d)); ", s.ID*1000)
 	case "eff":
 		init = fmt.Sprintf("tr.E(%d); ", s.ID*10+2)
 	}
@@ -485,6 +510,8 @@ func (r *rctx) forStmt(s *S) {
 		switch s.Init {
 		case "yield":
 			init = yieldStmt(s.ID*10+2, "call")
+		case "yfrom":
+			init = fmt.Sprintf("YFROM(§two(%d))", s.ID*1000)
 		case "eff":
 			init = fmt.Sprintf("tr.E(%d)", s.ID*10+2)
 		}
@@ -546,6 +573,9 @@ func Render(xs []*S, endReturn bool) string {
 		r.line("RETNIL")
 	}
 	b.WriteString("}GEN\n")
+	if strings.Contains(b.String(), "§two(") {
+		b.WriteString("func §two(base int) ITER[int] GEN[int]{\n\tYIELD(base + 1)\n\ttr.E(base)\n\tYIELD(base + 2)\n\tRETNIL\n}GEN\n")
+	}
 	b.WriteString("func §E() { drv.Run[int](func() drv.It[int] { it := §gen(); return it }) }\n")
 	return b.String()
 }
@@ -627,7 +657,7 @@ func logsFirst(xs []*S) bool {
 	s := xs[0]
 	switch s.K {
 	case "yield":
-		return s.Form == "call" || s.Form == "call1"
+		return s.Form == "call" || s.Form == "call1" || s.Form == "negcall" || s.Form == "convcall"
 	case "eff":
 		return s.Form == "e" || s.Form == "set" || s.Form == "call"
 	case "if":
@@ -746,7 +776,7 @@ func Exhaustive(maxNodes, cap int, quarantine map[string]bool, seed int64) (prog
 		all = all[:cap]
 		complete = false
 	}
-	forms := []string{"call", "call1", "var", "lit", "glob", "expr"}
+	forms := []string{"call", "call1", "var", "lit", "glob", "expr", "neg", "conv", "negcall", "paren", "iife", "convcall", "deref"}
 	for i, xs := range all {
 		// cycle the yield / effect forms deterministically over the enumerated shapes
 		k := i
@@ -758,7 +788,7 @@ func Exhaustive(maxNodes, cap int, quarantine map[string]bool, seed int64) (prog
 					k++
 				}
 				if y.K == "eff" && k%3 == 0 {
-					y.Form = []string{"mut", "globmut", "set"}[(k/3)%3]
+					y.Form = []string{"mut", "globmut", "set", "closure"}[(k/3)%4]
 				}
 				walk(y.A)
 				walk(y.B)
@@ -801,9 +831,9 @@ type Profile struct {
 	PanicPct  int // percentage of statements that are (mostly tape-guarded) panics
 }
 
-var Ctl = Profile{Name: "ctl", MaxDepth: 4, MaxStmts: 5, YieldForm: []string{"call", "call", "lit", "var", "expr", "call1", "glob"}, EffForm: []string{"e", "e", "mut", "set", "globmut"}}
-var Panic = Profile{Name: "panic", MaxDepth: 3, MaxStmts: 5, YieldForm: []string{"call", "var", "lit"}, EffForm: []string{"e", "set", "mut"}, PanicPct: 12}
-var Fx = Profile{Name: "fx", MaxDepth: 3, MaxStmts: 6, YieldForm: []string{"var", "expr", "call", "var", "call1", "glob", "lit"}, EffForm: []string{"mut", "set", "e", "set", "globmut"}}
+var Ctl = Profile{Name: "ctl", MaxDepth: 4, MaxStmts: 5, YieldForm: []string{"call", "call", "lit", "var", "expr", "call1", "glob", "neg", "conv", "negcall", "iife"}, EffForm: []string{"e", "e", "mut", "set", "globmut", "closure"}}
+var Panic = Profile{Name: "panic", MaxDepth: 3, MaxStmts: 5, YieldForm: []string{"call", "var", "lit", "boom1", "negcall"}, EffForm: []string{"e", "set", "mut", "closure"}, PanicPct: 12}
+var Fx = Profile{Name: "fx", MaxDepth: 3, MaxStmts: 6, YieldForm: []string{"var", "expr", "call", "var", "call1", "glob", "lit", "neg", "pos", "paren", "conv", "deref", "index", "iife", "negcall", "convcall"}, EffForm: []string{"mut", "set", "e", "set", "globmut", "closure"}}
 
 type rgen struct {
 	rng  *rand.Rand
@@ -887,7 +917,7 @@ func (g *rgen) stmt(depth int, c wctx) *S {
 		}
 		s.Def = g.rng.Intn(2) == 0
 		if g.rng.Intn(5) == 0 {
-			s.Init = g.pick([]string{"decl", "yield", "eff"})
+			s.Init = g.pick([]string{"decl", "yield", "eff", "yfrom"})
 		}
 		return s
 	case r < 94:
@@ -899,8 +929,8 @@ func (g *rgen) stmt(depth int, c wctx) *S {
 			}
 		}
 		if s.Form == "cond" && g.rng.Intn(3) == 0 {
-			s.Init = g.pick([]string{"yield", "eff", ""})
-			s.Post = g.pick([]string{"yield", "eff"})
+			s.Init = g.pick([]string{"yield", "eff", "", "yfrom"})
+			s.Post = g.pick([]string{"yield", "eff", "eff"})
 		}
 		s.A = g.list(depth+1, wctx{inLoop: true}, 4)
 		if s.Form == "inf" && !containsYield(s.A) && !hasExit(s.A) {
